@@ -501,7 +501,7 @@ def classify(fam, case, how, cfg, strategy, clauses, obs):
     """Input class / call site of a violation: operation, key mode, join type, the lowering that ran (hash-tasks / hash-disk /
     broadcast / aligned / blockwise; stacked / interleaved; asof-cc / asof-ii) and which promise is broken."""
     group = ("raised:" + obs["raised"]) if "Raised" in clauses else next(
-        (g for c, g in (("Rows", "rows"), ("Order", "order"), ("Truthful", "truthful"), ("Meta", "metadata"), ("WholeOK", "whole")) if c in clauses), "other")
+        (g for c, g in (("Rows", "rows"), ("Order", "order"), ("Meta", "metadata"), ("Truthful", "truthful"), ("WholeOK", "whole")) if c in clauses), "other")
     if fam == "merge":
         # input classes behind recorded findings: the first that applies names the violation
         if strategy == "broadcast":
@@ -596,7 +596,7 @@ def asof_config(rng, layouts, case):
 # ----------------------------------------------------------------------------- TLC
 def bounds(ctx):
     q = ctx.quick
-    return {"Keys": {0, 1, 2}, "MaxL": 4 if q else 5, "MaxR": 4 if q else 5, "Full": 4 if q else 5, "Mod": 160 if q else 200,
+    return {"Keys": {0, 1, 2}, "MaxL": 4 if q else 5, "MaxR": 4 if q else 5, "Full": 4 if q else 5, "Mod": 224 if q else 200,
             "Salt": ctx.rng.randrange(1000), "HeavyMod": 90 if q else 40, "MaxParts": 3,
             "CFrames": 3, "CRows": 2, "CLabels": {0, 1, 2}, "CMod": 6 if q else 1,
             "AMaxL": 3, "AMaxR": 3 if q else 4, "AKeys": {0, 1, 2} if q else {0, 1, 2, 3}, "AMod": 80 if q else 6}
@@ -633,6 +633,9 @@ def plan_items(ctx, cases, quota, per_case_hows):
     """Seeded sample of the enumerated cases crossed with configurations -> work items."""
     rng = ctx.rng
     layouts = {c["c"]["n"]: c["e"] for c in cases if c["c"]["fam"] == "layouts"}
+    # TLC's workers write the dump in no particular order: put the cases into a canonical order before sampling (determinism)
+    import json
+    cases = sorted(cases, key=lambda c: json.dumps(c["c"], sort_keys=True))
     byfam = {}
     for c in cases:
         fam = c["c"]["fam"]
@@ -665,7 +668,7 @@ def plan_items(ctx, cases, quota, per_case_hows):
     return items
 
 
-def check_items(ctx, items, label, tlc_share=0.12, tlc_min=150):
+def check_items(ctx, items, label, tlc_share=0.08, tlc_min=150):
     """Run the items on dask, judge them; let TLC decide the records without an exported expectation (random cases,
     together with the record pandas' own result makes) and a seeded share of the others (consistency of the replay
     judge with JoinsTrace).  -> (violations [(item, rec, clauses, strategy)], records, skips)."""
@@ -756,12 +759,12 @@ def run(ctx):
     ctx.extra["cases_enumerated_by_tlc"] = len(cases)
     q = ctx.quick
     dev = float(__import__("os").environ.get("VERIF_C39_DEV", "1"))        # development only: shrink the dask side
-    quota = {"merge:cc": 900 if q else 4500, "merge:ii": 400 if q else 2000, "merge:ii:sorted": 700 if q else 2500,
-             "merge:ic": 350 if q else 1800, "merge:ci": 350 if q else 1800,
-             "concat": 400 if q else 4000, "concat1": 120 if q else 900, "asof": 380 if q else 4000}
+    quota = {"merge:cc": 700 if q else 2500, "merge:ii": 300 if q else 1000, "merge:ii:sorted": 500 if q else 1500,
+             "merge:ic": 250 if q else 900, "merge:ci": 250 if q else 900,
+             "concat": 300 if q else 3000, "concat1": 100 if q else 900, "asof": 300 if q else 3000}
     quota = {k: max(20, int(v * dev)) for k, v in quota.items()}
     items = plan_items(ctx, cases, quota, 1 if q else "all")
-    items += random_items(ctx.rng, 200 if q else 3000)
+    items += random_items(ctx.rng, 150 if q else 2500)
     _tick(ctx, "planned %d items from %d cases" % (len(items), len(cases)))
     del cases
     bad, done, skips = check_items(ctx, items, "recorded-calls")
